@@ -23,6 +23,10 @@ def label_view(lc, sample_pairs):
     """Label-level statements: concepts, covering pairs, joins/meets of sampled pairs, relations."""
     L = lc.ctx.lattice
     cs = list(L)
+    by_position = [L[i] for i in range(len(L))]
+    if [id(c) for c in by_position] != [id(c) for c in cs] or [id(c) for c in reversed(L)] != [id(c) for c in cs[::-1]]:
+        from core import Disagreement
+        raise Disagreement('lattice[i] for i in range(len(lattice)) (or reversed(lattice)) is not the iteration sequence')
     key = lambda c: (frozenset(c.extent), frozenset(c.intent))
     concepts_ = frozenset(key(c) for c in cs)
     covers = frozenset((key(c), key(u)) for c in cs for u in c.upper_neighbors)
